@@ -70,8 +70,8 @@ def run(ctx):
                                  config=cfg, reference=ref_cfg, differing=[(i, ref_st.get(i), st.get(i)) for i in st if st.get(i) != ref_st.get(i)][:5]))
             if tree != ref_tree:
                 diff = [p for p in sorted(set(tree) | set(ref_tree)) if tree.get(p) != ref_tree.get(p)]
-                # C05's known classes make a shared file order-dependent: the words `export type ` inside a declaration body
-                # (a doc comment), and a doc comment with a blank line
+                # C05's known class makes a shared file order-dependent: the words `export type ` inside a declaration body
+                # (a doc comment); a doc comment with an empty line did too until fix 178c3c3
                 known_cls = None
                 if all(p in tree and p in ref_tree for p in diff):
                     def blocks(txt):
